@@ -273,7 +273,7 @@ def correspond(ctx):
     for k, o in zip(toks, outs):
         t = terms[k]
         cmp(ctx, "side-conditions", k, ("ok", o.strip()),
-            ("ok", "%d %d %d %d %d" % (int(L.dec_ok(t)), int(L.single(t)), int(G.wf(t)), int(L.tupl_elems_single(t)), int(L.productive(t)))))
+            ("ok", "%d %d %d %d %d %d" % (int(L.dec_ok(t)), int(L.single(t)), int(G.wf(t)), int(L.tupl_elems_single(t)), int(L.productive(t)), int(L.reenc_ok(t)))))
     # the regular expression itself: groups of _DESERIALIZE_URL_REG.match vs url_match
     import cspuz.problem_serializer as ps
     texts = sorted({text for (_, _, text) in st})
